@@ -222,7 +222,7 @@ func runParserModel(o *Options, res *Result, prop string) error {
 		if v != "PMOk" {
 			res.Mismatches++
 			res.AddViolation(&Violation{Kind: "no-failing-input-found", Class: "parser-model", Lemma: "parser correspondence: Model/Parser.v over the regenerated expressions vs Parse + VerifTree",
-				What: fmt.Sprintf("the parser model (%s) and the real parser (accepted=%v) disagree on the source %q (keepFmt=%v, stream %s)", v, c.Accepted, c.Src, c.Keep, c.How),
+				What:   fmt.Sprintf("the parser model (%s) and the real parser (accepted=%v) disagree on the source %q (keepFmt=%v, stream %s)", v, c.Accepted, c.Src, c.Keep, c.How),
 				Replay: map[string]any{"template": string(c.Src), "template_hex": hx(c.Src), "keep_fmt": c.Keep, "accepted": c.Accepted, "verdict": v, "stream": c.How, "seed": o.Seed, "tier": o.Tier}})
 		}
 	}
